@@ -81,6 +81,117 @@ def shares_mutable(result, data, depth=0):
     return bool(found)
 
 
+def share_kinds(u, t, result, data):
+    """where does `result` (deserialized at type t) hold a list / dict of `data`: 'any' = at an Any-typed position,
+    'td-extra' = below an additional property of a TypedDict (an untyped position too), 'typed' = anywhere else"""
+    ids = set()
+
+    def collect(d):
+        if isinstance(d, (list, dict)):
+            ids.add(id(d))
+            for x in (d.values() if isinstance(d, dict) else d):
+                collect(x)
+    collect(data)
+
+    def untyped(r):
+        return shares_mutable(r, data)
+
+    def fits(t, r):
+        k = t[0]
+        if k == "coll":
+            return isinstance(r, {"list": list, "set": set, "frozenset": frozenset, "tuple": tuple,
+                                  "seq": (list, tuple), "absset": (set, frozenset)}.get(t[1], (list, tuple, set, frozenset)))
+        if k == "tuple":
+            return isinstance(r, tuple) and len(r) == len(t[1])
+        if k == "map":
+            return isinstance(r, dict)
+        if k == "con":
+            return fits(t[2], r)
+        if k == "union":
+            return any(fits(x, r) for x in t[1])
+        if k == "obj":
+            td = u["classes"][t[1]]["kind"] == "typeddict"
+            return isinstance(r, dict) if td else type(r).__name__ == f"C{t[1]}"
+        if k == "any":
+            return True
+        return not isinstance(r, (list, dict, set, frozenset, tuple))
+
+    def walk(t, r, depth=0):
+        k = t[0]
+        if k == "any":
+            return {"any"} if untyped(r) else set()
+        out = set()
+        if k not in ("union", "con") and isinstance(r, (list, dict)) and id(r) in ids:
+            out.add("typed")
+        if depth > 40:
+            return out | ({"typed"} if untyped(r) else set())
+        if k == "coll" and isinstance(r, (list, tuple, set, frozenset)):
+            for x in r:
+                out |= walk(t[2], x, depth + 1)
+        elif k == "tuple" and isinstance(r, tuple) and len(r) == len(t[1]):
+            for tt, x in zip(t[1], r):
+                out |= walk(tt, x, depth + 1)
+        elif k == "map" and isinstance(r, dict):
+            for x in r.values():
+                out |= walk(t[2], x, depth + 1)
+        elif k == "con":
+            out |= walk(t[2], r, depth)
+        elif k == "union":
+            cands = [walk(x, r, depth + 1) for x in t[1] if fits(x, r)]
+            if not cands:
+                out |= {"typed"} if untyped(r) else set()
+            else:       # the alternative that built r is not observable: keep the most benign explanation
+                cands.sort(key=lambda c: ("typed" in c, len(c)))
+                out |= cands[0]
+        elif k == "obj":
+            cl = u["classes"][t[1]]
+            names = {f["name"]: f["ty"] for f in cl["fields"]}
+            if cl["kind"] == "typeddict" and isinstance(r, dict):
+                for key, x in r.items():
+                    if key in names:
+                        out |= walk(names[key], x, depth + 1)
+                    elif untyped(x):
+                        out.add("td-extra")
+            elif cl["kind"] != "typeddict" and type(r).__name__ == f"C{t[1]}":     # dataclass / NamedTuple instance
+                for n, ft in names.items():
+                    if hasattr(r, n):
+                        out |= walk(ft, getattr(r, n), depth + 1)
+            elif untyped(r):
+                out.add("typed")
+        elif untyped(r):
+            out.add("typed")
+        return out
+    return walk(t, result)
+
+
+def sharing_probe(R):
+    """directed instances of the two recorded ways a result shares a container with its input, and controls"""
+    pyrun.ensure_repo_on_path()
+    from typing import Any, Dict, List, TypedDict
+    from apischema import deserialize
+
+    class _TD(TypedDict):
+        a: List[int]
+    R.count("sharing_probe")
+    d = {"a": {"k": [1]}}
+    r = deserialize(Dict[str, Any], d, no_copy=False)
+    if (r["a"] is d["a"] or r["a"]["k"] is d["a"]["k"]) and not R.known_match("share:any"):
+        R.violation("with no_copy=False the result shares a mutable container with the input (Any position)",
+                    dict(type="Dict[str, Any]", data=d))
+    d = {"a": [1], "zz": {"k": []}}
+    r = deserialize(_TD, d, no_copy=False, additional_properties=True)
+    if r is d or r["a"] is d["a"]:
+        R.violation("with no_copy=False the result shares a mutable container with the input",
+                    dict(type="TypedDict(a: List[int])", data=d))
+    elif "zz" in r and (r["zz"] is d["zz"] or r["zz"]["k"] is d["zz"]["k"]) and not R.known_match("share:typeddict-extra"):
+        R.violation("with no_copy=False the result shares a mutable container with the input (additional property of a "
+                    "TypedDict)", dict(type="TypedDict(a: List[int])", data=d, additional_properties=True))
+    for tp, d in ((List[List[int]], [[1], []]), (Dict[str, List[Dict[str, int]]], {"a": [{"b": 1}]})):
+        r = deserialize(tp, d, no_copy=False)
+        if shares_mutable(r, d):
+            R.violation("with no_copy=False the result shares a mutable container with the input", dict(type=str(tp), data=d))
+
+
 def run(tier):
     R = core.Run("C08", tier)
     R.trusted = core.TRUSTED_COMMON + ["object identity (sharing with the input) is observed on the implementation only; "
@@ -110,11 +221,16 @@ def run(tier):
                 from apischema import deserialize
                 r = deserialize(U.type(c.t), real, **kw)
                 if shares_mutable(r, real):
-                    if has_any(c.u, c.t) or (c.u["classes"] and any(f.get("default") == ("emptylist",) for cl in c.u["classes"] for f in cl["fields"]) and False):
-                        R.known_match("share:any")
-                    else:
+                    kinds = share_kinds(c.u, c.t, r, real)
+                    R.count("shared:" + "+".join(sorted(kinds)))
+                    if "typed" in kinds or not kinds:
                         R.violation("with no_copy=False the result shares a mutable container with the input", c.to_json())
                         return
+                    for kind, tag in (("any", "share:any"), ("td-extra", "share:typeddict-extra")):
+                        if kind in kinds and not R.known_match(tag):
+                            R.violation("with no_copy=False the result shares a mutable container with the input "
+                                        f"({kind} position)", c.to_json())
+                            return
             except ValidationError:
                 pass
             if not G.same_data(before, real):
@@ -170,6 +286,7 @@ def run(tier):
     from harness import probes
     probes.discriminator_probe(R, {'mutation', 'options'})
     probes.constructor_probe(R)
+    sharing_probe(R)
     return R.finish(
         rule="every deserialization case is re-run with no_copy flipped, through the precomputed deserialization_method, "
              "and with settings.deserialization.override_dataclass_constructors flipped; results (values with runtime "
